@@ -398,7 +398,11 @@ def r5(ctx):
         ctx.bad(construct, 'mask-box', f'compound mask box is {show(bb, 200)}, not the union box', f.loc())
         return
     data = t.fields.get('data')
-    pads = _find_apps(data, 'numpy.pad')
+    pads = []
+    for p_ in _find_apps(data, 'numpy.pad'):
+        if not any(same(p_, q) for q in pads):
+            pads.append(p_)
+    pads.sort(key=lambda p_: show(p_.args[0], 80))       # operand 1 first
     if len(pads) != 2:
         raise AnalysisError('C02.R5', construct, f'expected two np.pad calls, found {len(pads)}: {show(data, 300)}')
     ok = True
@@ -418,12 +422,29 @@ def r5(ctx):
                     f'{show(want, 300)} so that it lands at its own box inside the union box', f.loc())
     mode = p.args[2] if len(p.args) > 2 else None
     if ok:
-        op_ok = isinstance(data, App) and data.name == 'apply' and len(data.args) == 3 and \
-            'operator' in show(data.args[0]) and same(data.args[1], pads[0]) and same(data.args[2], pads[1])
-        if op_ok:
-            ctx.ok(construct, 'operands padded to the union box; operator applied; union box carried')
-        else:
+        def operand_ok(t, pad, k):
+            """'plain' if t is the padded mask, 'complemented' if it is (pad if include else 1 - pad) on operand k's own flag."""
+            if same(t, pad):
+                return 'plain'
+            if isinstance(t, Ite):
+                c = show(t.cond, 300)
+                if f'self.region{k}' in c and "'include'" in c:
+                    comp, keep = (t.a, t.b) if c.startswith('not ') else (t.b, t.a)
+                    if same(keep, pad) and isinstance(comp, App) and comp.name == 'binop:Sub' and comp.args[0] == 1 \
+                            and same(comp.args[1], pad):
+                        return 'complemented'
+            return None
+        kinds = [operand_ok(data.args[k + 1], pads[k], k + 1) for k in range(2)] if (
+            isinstance(data, App) and data.name == 'apply' and len(data.args) == 3 and 'operator' in show(data.args[0])) else [None, None]
+        if None in kinds:
             ctx.bad(construct, 'operator', f'mask data is {show(data, 300)}, not operator(padded1, padded2)', f.loc())
+        elif 'plain' in kinds:
+            ctx.bad(construct, 'excluded-operand',
+                    'the operand masks are combined as they are: an operand whose own include flag is false is complemented by '
+                    'contains() but not in the mask, so the compound mask is not the sampled membership function '
+                    '(CirclePixelRegion(..., meta={"include": False}) & other)', f.loc())
+        else:
+            ctx.ok(construct, 'operands padded to the union box, complemented when excluded; operator applied; union box carried')
 
 
 def r6(ctx):
